@@ -141,16 +141,17 @@ void reb_integrator_part2(struct reb_simulation* r){
         }
 
         double dt = r->dt_last_done;
-        double t = r->t - r->dt_last_done; // Note: floating point inaccuracy
+        const double t_end = r->t;          // The N-body step is already done.
+        double t = t_end - r->dt_last_done; // Note: floating point inaccuracy
         double forward = (dt>0.) ? 1. : -1.;
         r->ri_bs.first_or_last_step = 1;
-        while(t*forward < r->t*forward && fabs((r->t - t)/(fabs(r->t)+1e-16))>1e-15){
+        while(t*forward < t_end*forward && fabs((t_end - t)/(fabs(t_end)+1e-16))>1e-15){
             if (reb_sigint > 1){
                 r->status = REB_STATUS_SIGINT;
                 return;
             }
             if (r->ri_bs.dt_proposed !=0.){
-                double max_dt = fabs(r->t - t);
+                double max_dt = fabs(t_end - t);
                 dt = fabs(r->ri_bs.dt_proposed);
                 if (dt > max_dt){ // Don't overshoot N-body timestep
                     dt = max_dt;
@@ -158,7 +159,9 @@ void reb_integrator_part2(struct reb_simulation* r){
                 }
                 dt *= forward;
             }
+            r->t = t;       // The BS step starts at r->t. This is the time passed to the derivatives of the ODEs.
             int success = reb_integrator_bs_step(r, dt);
+            r->t = t_end;
             if (success){
                 t += dt;
             }
